@@ -43,6 +43,7 @@ vars == <<ph, cur, pos, sent, view, ncalls, hist>>
 --------------------------------------------------------------------------
 Log(l, m) == <<"log", l, m>>
 Data(v)   == <<"data", v, 0>>
+DataM(v)  == <<"data", v, 1>>   \* a data batch carrying user metadata
 Exc(t, k) == <<"exc", t, k>>
 Prio(l) == CASE l = "EXCEPTION" -> 0 [] l = "ERROR" -> 1 [] l = "WARN" -> 2 [] l = "INFO" -> 3
              [] l = "DEBUG" -> 4 [] l = "TRACE" -> 5 [] OTHER -> 6
@@ -60,6 +61,7 @@ HasHdr(c) == c.hdr
 Kinds(bs) == [i \in 1..Len(bs) |-> bs[i][1]]
 LogsOf(bs) == LET f == SelectSeq(bs, LAMBDA b : b[1] = "log") IN [i \in 1..Len(f) |-> <<f[i][2], f[i][3]>>]
 ValsOf(bs) == LET f == SelectSeq(bs, LAMBDA b : b[1] = "data") IN [i \in 1..Len(f) |-> f[i][2]]
+MetasOf_(bs) == LET f == SelectSeq(bs, LAMBDA b : b[1] = "data") IN [i \in 1..Len(f) |-> f[i][3]]
 ErrsOf(bs) == LET f == SelectSeq(bs, LAMBDA b : b[1] = "exc") IN [i \in 1..Len(f) |-> <<f[i][2], f[i][3]>>]
 
 --------------------------------------------------------------------------
@@ -68,7 +70,7 @@ Outcomes == {"value", "rpcerr", "rpcerrk", "plain", "wrapped", "custom", "panic"
 OneLog == { <<>>, << <<"INFO", "m1">> >>, << <<"DEBUG", "m1">>, <<"ERROR", "m2">> >> }
 UnaryCalls == [k : {"unary"}, m : {"u_val", "u_void"}, pm : {"ok"}, logs : OneLog, lvl : {"", "INFO"}, o : Outcomes]
               \cup [k : {"unary"}, m : {"u_val"}, pm : {"mismatch"}, logs : {<<>>}, lvl : {""}, o : {"value"}]
-PreSeqs(n) == UNION { [1..k -> {"emit", "emitlogs"}] : k \in 0..n }
+PreSeqs(n) == UNION { [1..k -> {"emit", "emitlogs", "emitmeta"}] : k \in 0..n }
 ProdTerms == {"finish", "emitfinish", "error", "errlogs", "panic", "noemit", "emit2"}
 ExchTerms == {"finish", "error", "panic", "noemit", "emit2"}
 TurnSeqs(n, terms) == PreSeqs(n) \cup { p \o <<t>> : p \in PreSeqs(n), t \in terms }
@@ -112,16 +114,17 @@ PipeRun(c, i, t) ==
              v == IF IsProd(c.m) THEN t ELSE i IN
          CASE o = "emit"     -> << Data(v) >> \o PipeRun(c, i+1, t+1)
            [] o = "emitlogs" -> << Log("INFO", "turn"), Data(v) >> \o PipeRun(c, i+1, t+1)
+           [] o = "emitmeta" -> << DataM(v) >> \o PipeRun(c, i+1, t+1)
            [] o = "finish" /\ IsProd(c.m) -> <<>>
            [] o = "emitfinish" -> << Data(v) >>
            [] o \in {"error", "errlogs"} -> << Exc("ValueError", "") >>
            [] OTHER -> << Exc("RuntimeError", "") >>
 PipeView(c) ==
     LET bs == LogBatches(c.logs, c.lvl) \o PipeRun(c, 1, 1) IN
-    [hdr |-> c.hdr, vals |-> ValsOf(bs), logs |-> LogsOf(bs), errs |-> ErrsOf(bs)]
-EmptyView == [hdr |-> FALSE, vals |-> <<>>, logs |-> <<>>, errs |-> <<>>]
-AddView(v, bs, h) == [hdr |-> v.hdr \/ h, vals |-> v.vals \o ValsOf(bs), logs |-> v.logs \o LogsOf(bs),
-                      errs |-> v.errs \o ErrsOf(bs)]
+    [hdr |-> c.hdr, vals |-> ValsOf(bs), metas |-> MetasOf_(bs), logs |-> LogsOf(bs), errs |-> ErrsOf(bs)]
+EmptyView == [hdr |-> FALSE, vals |-> <<>>, metas |-> <<>>, logs |-> <<>>, errs |-> <<>>]
+AddView(v, bs, h) == [hdr |-> v.hdr \/ h, vals |-> v.vals \o ValsOf(bs), metas |-> v.metas \o MetasOf_(bs),
+                      logs |-> v.logs \o LogsOf(bs), errs |-> v.errs \o ErrsOf(bs)]
 
 --------------------------------------------------------------------------
 RecordC(step) ==
@@ -138,7 +141,7 @@ HookEv(m, failed) ==
 \* the response of one HTTP request, as the step's predicted observation
 Resp(action, args, status, bs, token, hdr, journal, hooked, failed) ==
     [a |-> action, args |-> args,
-     exp |-> [status |-> status, kinds |-> Kinds(bs), vals |-> ValsOf(bs), logs |-> LogsOf(bs),
+     exp |-> [status |-> status, kinds |-> Kinds(bs), vals |-> ValsOf(bs), metas |-> MetasOf_(bs), logs |-> LogsOf(bs),
               errs |-> ErrsOf(bs), token |-> token, hdr |-> hdr, journal |-> journal,
               hooks |-> IF hooked THEN HookEv(args.m, failed) ELSE <<>>,
               tb |-> (Debug /\ ErrsOf(bs) # <<>>), leak |-> 0, complete |-> TRUE]]
@@ -165,8 +168,9 @@ PerTurn == IF Limit = 0 THEN CapN ELSE IF CapN = 0 THEN Limit ELSE IF Limit < Ca
 RECURSIVE Loop(_, _, _)
 Loop(c, p, n) ==
     LET o == TurnOut(c, p + 1) IN
-    CASE o \in {"emit", "emitlogs"} ->
-            LET b == (IF o = "emitlogs" THEN << Log("INFO", "turn") >> ELSE <<>>) \o << Data(p + 1) >> IN
+    CASE o \in {"emit", "emitlogs", "emitmeta"} ->
+            LET b == (IF o = "emitlogs" THEN << Log("INFO", "turn") >> ELSE <<>>)
+                     \o << IF o = "emitmeta" THEN DataM(p + 1) ELSE Data(p + 1) >> IN
             IF PerTurn > 0 /\ n + 1 >= PerTurn
             THEN [bs |-> b, p |-> p + 1, more |-> TRUE, calls |-> 1]
             ELSE LET r == Loop(c, p + 1, n + 1) IN [bs |-> b \o r.bs, p |-> r.p, more |-> r.more, calls |-> r.calls + 1]
@@ -243,8 +247,9 @@ Continue(i) ==
                                    AddView(view, << Exc("TypeError", "") >>, FALSE), TRUE, TRUE))
             ELSE
             LET o == TurnOut(cur, pos + 1)
-                ok == o \in {"emit", "emitlogs"}
+                ok == o \in {"emit", "emitlogs", "emitmeta"}
                 bs == CASE o = "emit" -> << Data(sent + 1) >>
+                        [] o = "emitmeta" -> << DataM(sent + 1) >>
                         [] o = "emitlogs" -> << Log("INFO", "turn"), Data(sent + 1) >>
                         [] o = "error" -> << Exc("ValueError", "") >>
                         [] OTHER -> << Exc("RuntimeError", "") >>
